@@ -179,6 +179,20 @@ def mutants(seed, args):
                 continue
             expect = meta.get("caught_by") or [meta["property"]]
             also = set(meta.get("also_breaks", []))
+            if meta.get("expect_silent"):
+                # a property-preserving change: nothing may fire
+                row = {"mutant": name, "property": meta["property"], "results": {}, "silent": True}
+                for pid in (CLAIMED if matrix else expect):
+                    rc, kinds, tail = _run_check(pid, root)
+                    row["results"][pid] = rc
+                    if rc != 0:
+                        failures += 1
+                        print(f"refactor {name}: FALSE ALARM from {pid} (rc={rc}): {kinds[:1]} {tail[-200:]}")
+                    else:
+                        print(f"refactor {name}: {pid} stays quiet")
+                    sys.stdout.flush()
+                rows.append(row)
+                continue
             row = {"mutant": name, "property": meta["property"], "results": {}}
             for pid in (CLAIMED if matrix else expect):
                 rc, kinds, tail = _run_check(pid, root)
